@@ -3,6 +3,7 @@
 Each entry is one line with its reason.  Pinned to the versions in /repo/Cargo.lock
 (tinyvec 1.13.3, crc-any 2.5.1) and the nightly core; engine reports a note when the lock differs.
 """
+import re
 from terms import T, mk, is_const, const_val, ty_of, show
 from facts import int_range, callee_of
 
@@ -73,6 +74,17 @@ SAFE = {
     "crc_any::CRC::crc24lte_a", "crc_any::CRC::digest", "crc_any::CRC::get_crc",
     "core::clone::Clone::clone", "core::intrinsics::discriminant_value",
 }
+
+SAFE_PATTERNS = [
+    re.compile(r"core::num::<impl [iu](8|16|32|64|128|size)>::wrapping_(add|sub|neg|mul|shl|shr)"),
+    re.compile(r"core::num::<impl [iu](8|16|32|64|128|size)>::(saturating|checked|overflowing)_(add|sub|mul|neg)"),
+    re.compile(r"core::num::<impl [iu](8|16|32|64|128|size)>::(count_ones|count_zeros|leading_zeros|trailing_zeros|min|max)"),
+]
+
+
+def is_safe(callee):
+    return callee in SAFE or any(p.fullmatch(callee) for p in SAFE_PATTERNS)
+
 
 # iterator `next` functions that are finite (terminate after <= len items) - used by T-loop
 FINITE_NEXT = {
@@ -220,10 +232,6 @@ def call_interval(t, iv, b, depth):
         cap = capacity_of_type(obj_type(args[0]))
         if cap is not None:
             return (cap, cap)
-    if iv.prog is not None and callee in iv.prog.fns and ty is not None and ty.get("k") in ("uint", "int"):
-        r = fn_return_interval(iv.prog, callee)
-        if r is not None:
-            return r
     if callee == "core::char::methods::<impl char>::len_utf8":
         return (1, 4)
     if callee in ("<core::iter::Filter<I, P> as core::iter::Iterator>::count", "<core::str::Chars as core::iter::Iterator>::count",
@@ -239,14 +247,180 @@ def call_interval(t, iv, b, depth):
                 lo = parse_value_range(kind, bits, wi[1])
                 return lo
         return rng
-    if callee == "df::assembler::Assembler::offset" or callee == "df::parser::Parser::offset":
+    if callee == "df::assembler::Assembler::offset":
+        r = assembler_offset_interval(t, iv, b, depth)
+        return r if r is not None else (0, ISIZE_MAX)
+    if callee == "df::parser::Parser::offset":
         return (0, ISIZE_MAX)
+    if iv.prog is not None and callee in iv.prog.fns and ty is not None and ty.get("k") in ("uint", "int"):
+        r = fn_return_interval(iv.prog, callee)
+        if r is not None:
+            return r
     return rng
+
+
+def assembler_offset_interval(t, iv, b, depth):
+    """W-win: asm.offset() for a local assembler built by Assembler::new(window, 0):
+    upper bound 8*len(window) (B-guard keeps offset <= 8*len(data); P-pre checks the window),
+    lower bound = sum of the constant widths of the puts whose success dominates this call (B-cursor: each adds w)."""
+    fa = iv.fa
+    f = fa.fn
+    if len(t.args) < 4 or t.args[2] != id(f):
+        return None
+    recv = t.args[1][0]
+    if not (recv.op == "ref" and recv.args[0].op == "loc"):
+        return None
+    A = recv.args[0].args[1]
+    real = [d for d in fa.defs(A) if d[2] != "borrow"]
+    if len(real) != 1:
+        return None
+    init = fa.defterm(A, *real[0])
+    if not (init.op == "call" and init.args[0] == "df::assembler::Assembler::new" and is_const(init.args[1][1])):
+        return None
+    start = const_val(init.args[1][1])
+    import framing_slices
+    sl = framing_slices.as_slice(init.args[1][0])
+    if sl is None or sl[1] is None or sl[2] is None:
+        return None
+    lo_i, hi_i = iv.interval(sl[1], real[0][0], depth + 1), iv.interval(sl[2], real[0][0], depth + 1)
+    if lo_i is None or hi_i is None:
+        return None
+    upper = 8 * (hi_i[1] - lo_i[0])
+    ob = t.args[3]
+    lower = start
+    for cb, ct in f.calls():
+        if callee_of(ct) == "df::assembler::Assembler::put":
+            a = fa.call_args(cb)
+            if a[0] is recv and is_const(a[2]) and f.dominates(cb, ob) and cb != ob:
+                # success: the Continue arm of `?` on this call dominates ob
+                res = fa.call_term(cb)
+                br = mk("discr", mk("call", "<core::result::Result<T, E> as core::ops::Try>::branch", (res,), id(f), ct["target"]))
+                for g in fa.guards(ob):
+                    if g[0].op == "discr" and g[0].args[0].op == "call" and g[0].args[0].args[0] == "<core::result::Result<T, E> as core::ops::Try>::branch" \
+                            and g[0].args[0].args[1][0] is res and g[1] == "eq" and g[2] == 0:
+                        lower += const_val(a[2])
+                        break
+    return (lower, max(lower, upper))
+
+
+def smash_values(base, fa, seen=None, depth=0):
+    """All element values that may be stored in a local array / vector value term (array smashing), or None."""
+    if seen is None:
+        seen = set()
+    out = []
+    st = [base]
+    while st:
+        x = st.pop()
+        if x in seen:
+            continue
+        seen.add(x)
+        if x.op == "upd":
+            path = x.args[1]
+            if len(path) == 1 and path[0][0] == "i":
+                out.append(x.args[2])
+                st.append(x.args[0])
+            else:
+                return None
+        elif x.op == "phi":
+            for pb, v in fa.phi_operands(x):
+                st.append(v)
+        elif x.op == "repeat":
+            out.append(x.args[0])
+        elif x.op == "array":
+            out.extend(x.args[0])
+        else:
+            return None
+    return out
+
+
+def vec_pushed_values(vec_local, fa):
+    """Terms pushed into a local ArrayVec/DataVec created empty in this function: [(block, term)] or None."""
+    f = fa.fn
+    real = [d for d in fa.defs(vec_local) if d[2] != "borrow"]
+    if len(real) != 1:
+        return None
+    init = fa.defterm(vec_local, *real[0])
+    if not (init.op == "call" and init.args[0] in ("tinyvec::ArrayVec::<A>::new", "util::data_vec::DataVec::<T, N>::new")):
+        return None
+    out = []
+    for cb, ct in f.calls():
+        a = fa.call_args(cb)
+        if a and a[0].op == "ref" and a[0].args[0].op == "loc" and a[0].args[0].args[1] == vec_local:
+            c = callee_of(ct)
+            if c in ("tinyvec::ArrayVec::<A>::push", "util::data_vec::DataVec::<T, N>::push"):
+                out.append((cb, a[1]))
+            elif c in ("tinyvec::ArrayVec::<A>::len", "util::data_vec::DataVec::<T, N>::len", "tinyvec::ArrayVec::<A>::iter",
+                       "util::data_vec::DataVec::<T, N>::iter"):
+                pass
+            else:
+                return None
+    return out
 
 
 def projection_interval(t, iv, b, depth):
     """Intervals of projections of call results: Option/Result payloads of modelled calls, iterator items."""
     fa = iv.fa
+    # element of a local array built by stores: join of everything stored (array smashing)
+    if t.op == "index":
+        vals = smash_values(t.args[0], fa)
+        if vals:
+            from intervals import join
+            acc = (1, 0)
+            for v in vals:
+                i = iv.interval(v, b, depth + 1) if not is_const(v) else (const_val(v), const_val(v))
+                # values stored inside loops: evaluate with the facts of the storing block when known
+                if i is None:
+                    return None
+                acc = join(acc, i)
+            return acc
+    # item.k of a by-value iteration over a local vector: join of the k-th component of everything pushed
+    if t.op == "field" and t.args[0].op == "field" and t.args[0].args[1] == 0 and t.args[0].args[0].op == "downcast" \
+            and t.args[0].args[0].args[1] == 1 and t.args[0].args[0].args[0].op == "call" \
+            and t.args[0].args[0].args[0].args[0] == "<tinyvec::ArrayVecIterator<A> as core::iter::Iterator>::next":
+        c = t.args[0].args[0].args[0]
+        src = iterator_source(c, fa)
+        if src is not None:
+            v = src[0]
+            if v.op == "call" and v.args[0] in ("<tinyvec::ArrayVec<A> as core::iter::IntoIterator>::into_iter", INTO_ITER):
+                vec = v.args[1][0]
+                # the vector value moved into the iterator: find its local
+                L = None
+                f = fa.fn
+                ib = v.args[3]
+                blk = f.term(ib)
+                a0 = blk["args"][0]
+                if a0["k"] in ("copy", "move") and not a0["place"]["proj"]:
+                    L = a0["place"]["local"]
+                    for _ in range(4):
+                        ds = fa.defs(L)
+                        if len(ds) == 1 and ds[0][2] == "assign":
+                            st = f.blocks[ds[0][0]]["stmts"][ds[0][1]]
+                            if st["rv"]["k"] == "use" and st["rv"]["op"]["k"] in ("copy", "move") and not st["rv"]["op"]["place"]["proj"]:
+                                L = st["rv"]["op"]["place"]["local"]
+                                continue
+                        break
+                if L is not None:
+                    pushed = vec_pushed_values(L, fa)
+                    if pushed:
+                        from intervals import join
+                        acc = (1, 0)
+                        k = t.args[1]
+                        for pb, pv in pushed:
+                            comp = pv.args[0][k] if pv.op == "tuple" and k < len(pv.args[0]) else None
+                            if comp is None:
+                                return None
+                            i = iv.interval(comp, pb, depth + 1)
+                            if i is None:
+                                return None
+                            acc = join(acc, i)
+                        return acc
+    # Some-payload of a crate function returning Option<integer>: summary over its return sites
+    if t.op == "field" and t.args[1] == 0 and t.args[0].op == "downcast" and t.args[0].args[1] == 1 and t.args[0].args[0].op == "call":
+        c = t.args[0].args[0]
+        if iv.prog is not None and c.args[0] in iv.prog.fns:
+            r = fn_some_payload_interval(iv.prog, c.args[0])
+            if r is not None:
+                return r
     # Result<T,E>::Ok payload of `?`:  Try::branch(x) @Continue .0  ==  x @Ok .0
     if t.op == "field" and t.args[1] == 0 and t.args[0].op == "downcast":
         d = t.args[0]
@@ -352,4 +526,45 @@ def fn_return_interval(prog, path):
     if acc is None or acc[0] > acc[1]:
         return None
     _RET[path] = acc
+    return acc
+
+
+_SOME = {}
+
+
+def fn_some_payload_interval(prog, path):
+    """Interval of x over all `Some(x)` a crate function returns (Option<integer> results)."""
+    if path in _SOME:
+        return _SOME[path]
+    _SOME[path] = None
+    f = prog.fn(path)
+    if f is None:
+        return None
+    rty = f.locals[0]
+    if not (rty.get("k") == "adt" and rty["path"] == "core::option::Option" and rty["args"] and rty["args"][0].get("k") in ("uint", "int")):
+        return None
+    from terms import FA
+    from intervals import Intervals, join
+    fa = FA(f, prog)
+    iv = Intervals(fa, prog)
+    acc = (1, 0)
+    for b in sorted(f.reachable()):
+        for i, s in enumerate(f.blocks[b]["stmts"]):
+            if s["k"] == "assign" and s["place"]["local"] == 0 and not s["place"]["proj"]:
+                v = fa.rv_term(s["rv"], (b, i))
+                if v.op == "agg" and v.args[2] == "Some":
+                    x = iv.interval(v.args[3][0], b)
+                    if x is None:
+                        return None
+                    acc = join(acc, x)
+                elif v.op == "agg" and v.args[2] == "None":
+                    pass
+                else:
+                    return None
+        t = f.term(b)
+        if t["k"] == "call" and t["dest"]["local"] == 0:
+            return None
+    if acc[0] > acc[1]:
+        return None
+    _SOME[path] = acc
     return acc
